@@ -96,6 +96,7 @@ type Interp struct {
 	// CallStack holds the names of the rec-closures being evaluated; it is not unwound on a
 	// panic, so after Stuck it tells where evaluation stopped.
 	CallStack []string
+	Work      int64 // element-wise work inside library primitives (see work)
 }
 
 func NewInterp(p *Program, policy CapPolicy) *Interp {
@@ -106,6 +107,17 @@ func (in *Interp) tick() {
 	in.Steps++
 	if in.Steps > in.MaxSteps {
 		panic(&Budget{})
+	}
+}
+
+// work counts the element-wise work inside library primitives (allocation, copying on append, byte/string
+// conversions). It is bounded separately from the evaluation steps: the native implementation of such a
+// primitive can be asymptotically cheaper (Go compares string(b) with a constant without building the
+// string), so exhausting this bound says nothing about divergence: the outcome is "unsupported".
+func (in *Interp) work() {
+	in.Work++
+	if in.Work > 400_000_000 {
+		panic(&Unsupported{What: "work budget of library primitives exhausted"})
 	}
 }
 
